@@ -61,6 +61,12 @@ func c09(c *Ctx) (*report.Result, error) {
 	checkRemoteForwardCondition(c, res, "O9.13")
 	res.RuleDoc["O9.14"] = "the intra-proxy stream tables are maintained on every path: RegisterSender files the sender (and a peer state it creates) for every cross-cluster pair, UnregisterSender deletes that entry, ensureStream files the receiver it creates and starts it as a goroutine"
 	checkIntraStreamTables(c, res, "O9.14")
+	res.RuleDoc["O9.15"] = "a closed local channel is a failed local delivery, not a crash: every send on a registered delivery channel is covered by a recover() called directly by the deferred function (same analysis as O8.2) - delivery then falls back to the remote owner or reports failure; recover() one call deeper returns nil and the panic escapes the routing goroutine"
+	if r8, err := Registry["C08"](c); err == nil && r8 != nil {
+		if n := importObligations(res, r8, "O9.15", func(o report.Obligation) bool { return o.Rule == "O8.2" }); n < 2 {
+			res.Undec("O9.15", "recover obligations of O8.2", "", fmt.Sprintf("%d imported, at least 2 expected", n))
+		}
+	}
 	res.RuleDoc["O9.10"] = "no swallowed error in the files the mechanism lives in: no function returns a nil error on a path on which an error obtained from a call is known to be non-nil (io.EOF from a stream Recv, the normal end of a receive loop, is the one accepted idiom)"
 	checkNoSwallowedErrors(c, res, "O9.10", []string{"proxy/intra_proxy_router.go", "proxy/shard_manager.go"})
 	return res, nil
